@@ -102,7 +102,7 @@ void gen_async_cfg(Rng &g, run::Plan &p, bool ha) {
 	p.cfg["faults"] = g.chance(1, 4) ? 0 : (int64_t)g.below(1 << 11);
 	p.cfg["epoch"] = (int64_t)g.below(6);
 	p.cfg["epoch_ms"] = (int64_t)g.below(1000);
-	p.cfg["loglevel"] = g.chance(1, 6) ? 5 : 0;
+	p.cfg["loglevel"] = g.chance(1, 6) ? g.pickl<int64_t>({5, 5, 6, 7}) : 0;
 	p.cfg["quiesce"] = 1;
 	// the application replaces the service object in the middle of the run (requests outstanding are abandoned)
 	// (TCP endpoints only: freeing an HTTP service with transfers in flight leaves their easy handles attached to the context-wide
